@@ -134,49 +134,96 @@ def check_impl(crate, b, res):
                 continue
             out.append(fnd("C05.EXACT", vv, "`as` cast %s -> %s (%s) in a scalar impl" % (fr, to, ck), bb))
     if cls in ("int", "nonzero"):
+        by_path = {cv.b.path: (cv, cbs) for cv, cbs in cl}
+
+        def closures_created(view, blocks_):
+            res_ = []
+            for bb_ in blocks_:
+                for st_ in view.blocks[bb_]["stmts"]:
+                    if st_["k"] == "assign" and st_["rv"]["k"] == "agg" and st_["rv"].get("ak") == "closure" and st_["rv"].get("path") in by_path:
+                        res_.append(st_["rv"]["path"])
+            return res_
+
         for var, src_ty in (("Integer", "u64"), ("NegativeInteger", "i64")):
             if var not in handled:
                 continue
             ob += 1
             tgt = v.variant_target(info, var)
             region = v.reachable(tgt)
-            # results produced on this arm: calls assigning _0
-            rets = [bb for bb in region if v.blocks[bb]["term"]["k"] == "call" and v.blocks[bb]["term"]["dest"]["l"] == 0 and not v.blocks[bb]["term"]["dest"]["p"]]
-            good = 0
+            own = set(bb for bb in region if v.dominates(tgt, bb))
+            # closures of this arm (and the closures they create)
+            arm_cl = []
+            work = closures_created(v, own)
+            while work:
+                pth = work.pop()
+                if pth in arm_cl:
+                    continue
+                arm_cl.append(pth)
+                cv0, _ = by_path[pth]
+                work.extend(closures_created(cv0, cv0.reach))
+            scopes_ = [(v, own)] + [(by_path[pth][0], set(by_path[pth][0].reach)) for pth in arm_cl]
+            payload = ("field", ("param", 1), var, "0")
+
+            def is_payload(view, term):
+                t_ = strip_refs(canon(view, term))
+                if view is v:
+                    return t_ == payload
+                # inside a closure: the captured binding of the payload, or the value the combinator hands in
+                return (t_[0] == "field" and strip_refs(t_[1]) == ("param", 1) and t_[2] is None) or (t_[0] == "param" and t_[1] >= 2)
+
+            convs = []      # (view, bb, kind, target type string, arg ok)
+            for view, blocks_ in scopes_:
+                for bb in sorted(blocks_):
+                    c = view.callee(bb)
+                    if c is None or c.fn is None:
+                        continue
+                    nm = call_name(view, ("call", bb))
+                    tt = view.blocks[bb]["term"]
+                    if nm == "std::convert::TryFrom::try_from" and tt["args"]:
+                        convs.append((view, bb, "try_from", crate.tys(c.self_ty) if c.self_ty is not None else "?", is_payload(view, view.origin(tt["args"][0]))))
+                    elif c.base() in ("std::num::NonZero::new",) and tt["args"]:
+                        convs.append((view, bb, "nz_new", crate.tys(v.b.crate.types[tt["dest"]["ty"]]["args"][0]) if False else c.full, is_payload(view, view.origin(tt["args"][0]))))
+                    elif nm == "std::convert::TryInto::try_into" and tt["args"]:
+                        convs.append((view, bb, "try_from", crate.tys(c.gargs[0]) if c.gargs and isinstance(c.gargs[0], int) else "?", is_payload(view, view.origin(tt["args"][0]))))
+            to_self = [x for x in convs if x[2] == "try_from" and x[3] == s]
+            if not to_self:
+                out.append(fnd("C05.EXACT", v, "no checked conversion (TryFrom) into %s found on the %s arm" % (s, var)))
+            for view, bb, kind, to, argok in convs:
+                if not argok:
+                    out.append(fnd("C05.EXACT", view, "a conversion on the %s arm is not applied to the payload itself" % var, bb))
+            if cls == "nonzero":
+                want_first = "NonZero<u64>" if var == "Integer" else "NonZero<i64>"
+                firsts = [x for x in convs if (x[2] == "try_from" and want_first in x[3]) or (x[2] == "nz_new" and want_first.replace("<", "::<") in x[3])]
+                if not firsts:
+                    out.append(fnd("C05.EXACT", v, "the %s payload is not first turned into a %s (checked)" % (var, want_first)))
+            # hand-made Ok / Some values on this arm
+            for view, blocks_ in scopes_:
+                for bb in sorted(blocks_):
+                    for st in view.blocks[bb]["stmts"]:
+                        if st["k"] == "assign" and st["rv"]["k"] == "agg" and st["rv"].get("ak") == "adt" and st["rv"].get("variant") in ("Ok", "Some") \
+                                and st["rv"].get("path") in ("std::result::Result", "std::option::Option") and st["rv"]["ops"]:
+                            srcs = view.alts(view.origin(st["rv"]["ops"][0]))
+                            conv_bbs = set(x[1] for x in convs if x[0] is view)
+                            okv = bool(srcs) and all(term_mentions(a, lambda y: y[0] == "call" and y[1] in conv_bbs) for a in srcs)
+                            if not okv:
+                                out.append(fnd("C05.EXACT", view, "an Ok value is built on the %s arm without a checked conversion" % var, bb))
+            # what the arm returns comes out of those conversions
+            rets = [bb for bb in own if v.blocks[bb]["term"]["k"] == "call" and v.blocks[bb]["term"]["dest"]["l"] == 0 and not v.blocks[bb]["term"]["dest"]["p"]]
+            conv_main = set(x[1] for x in convs if x[0] is v)
             for bb in rets:
                 t = canon(v, v.origin_call(bb))
-                if call_name(v, t) != "std::result::Result::or_else":
-                    out.append(fnd("C05.EXACT", v, "result of the %s arm is produced by %s" % (var, call_name(v, t)), bb))
-                    continue
-                inner = t[3][0]
-                okc = _exact_chain(crate, v, inner, var, s, cls, src_ty, cl)
-                if okc is not True:
-                    out.append(fnd("C05.EXACT", v, "the value of the %s arm is not the checked conversion of the payload into %s: %s" % (var, s, okc), bb))
-                else:
-                    good += 1
-            # other ways of producing Ok on this arm
-            for bb in region:
-                for st in v.blocks[bb]["stmts"]:
-                    if st["k"] == "assign" and st["place"]["l"] == 0 and st["rv"]["k"] == "agg" and st["rv"].get("variant") == "Ok":
-                        # only reachable from this arm?
-                        if v.dominates(tgt, bb):
-                            out.append(fnd("C05.EXACT", v, "an Ok value is built on the %s arm without a checked conversion" % var, bb))
-            if good == 0 and not any(f.rule == "C05.EXACT" for f in out):
-                out.append(fnd("C05.EXACT", v, "no checked conversion found on the %s arm" % var))
+                okr = term_mentions(t, lambda y: (y[0] == "call" and y[1] in conv_main) or (y[0] == "agg" and y[1] == "closure" and y[3] in arm_cl))
+                if not okr and not any(s2.bb in own for s2 in bs.sites):
+                    out.append(fnd("C05.EXACT", v, "result of the %s arm is produced by %s, not by the checked conversion" % (var, call_name(v, t)), bb))
             # ---------------------------------------------------- BOUND
             ob += 1
             want_bound = hi if var == "Integer" else lo
+            bits = {"8": 8, "16": 16, "32": 32, "64": 64, "128": 128, "size": 64}[inner_int(s).lstrip("ui")]
             okb = False
-            for bb in rets:
-                t = canon(v, v.origin_call(bb))
-                if call_name(v, t) != "std::result::Result::or_else" or len(t[3]) < 2:
-                    continue
-                clo = strip_refs(t[3][1])
-                if clo[0] == "agg" and clo[1] == "closure":
-                    for cv, cbs in cl:
-                        if cv.b.path == clo[3]:
-                            bits = {"8": 8, "16": 16, "32": 32, "64": 64, "128": 128, "size": 64}[inner_int(s).lstrip("ui")]
-                            okb = _closure_reports_bound(cv, cbs, want_bound, alt=(want_bound % (2 ** bits)) if cls == "nonzero" else None)
+            for pth in arm_cl:
+                cv0, cbs0 = by_path[pth]
+                if _closure_reports_bound(cv0, cbs0, want_bound, alt=(want_bound % (2 ** bits)) if cls == "nonzero" else None):
+                    okb = True
             if not okb:
                 out.append(fnd("C05.BOUND", v, "the out-of-range report of the %s arm does not name the payload and the bound %d of %s" % (var, want_bound, s)))
         if cls == "nonzero":
@@ -195,6 +242,16 @@ def check_impl(crate, b, res):
                                 tt = v.edge_target(i2, True) if i2 and i2["kind"] == "bool" else None
                                 if tt is not None and any(s2.ek == "Unexpected" and s2.bb in v.reachable(tt) and s2.handling == "collapsed" for s2 in bs.sites):
                                     okz = True
+                if not okz:
+                    # `Value::Integer(0) => ..`: a switch on the payload itself whose 0 edge reports
+                    for bb in v.reachable(tgt):
+                        i2 = v.switch_info(bb)
+                        if i2 and i2["kind"] == "int":
+                            dt = strip_refs(canon(v, v.origin(v.blocks[bb]["term"]["discr"])))
+                            if dt == ("field", ("param", 1), var, "0"):
+                                for lb, t2 in i2["edges"]:
+                                    if lb == 0 and any(s2.ek == "Unexpected" and s2.bb in v.reachable(t2) and s2.handling == "collapsed" for s2 in bs.sites):
+                                        okz = True
                 if not okz:
                     out.append(fnd("C05.BOUND", v, "a zero %s payload is not rejected with a report of its own" % var))
     if cls in ("bool", "string"):
